@@ -35,6 +35,8 @@ static void setup(void)
 	}
 	tl_snapshot(&T, &S0);
 	VASSUME(tl_sinv(&S0, TE));
+	hv_table = &T;
+	hv_scramble(); /* C16: no lock is held between calls */
 #ifdef ALLOC_FAIL
 	vm_requests = 0;
 	vm_fail_at = ND(uint8_t, "fail_at");
@@ -59,6 +61,7 @@ void harness_add(void)
 
 	tl_cb_reset(&w);
 	int rc = pfx_table_add(&T, &r);
+	hv_restore();
 	tl_snapshot(&T, &S1);
 	unsigned int post_w = tl_scount(&S1, &w), post_total = tl_stotal(&S1);
 	bool w_is_r = tl_rec_eq(&w, &r);
@@ -103,6 +106,7 @@ void harness_remove(void)
 
 	tl_cb_reset(&w);
 	int rc = pfx_table_remove(&T, &r);
+	hv_restore();
 	tl_snapshot(&T, &S1);
 	unsigned int post_w = tl_scount(&S1, &w), post_total = tl_stotal(&S1);
 	bool w_is_r = tl_rec_eq(&w, &r);
@@ -143,6 +147,7 @@ void harness_src_remove(void)
 
 	tl_cb_reset(&w);
 	int rc = pfx_table_src_remove(&T, s);
+	hv_restore();
 	tl_snapshot(&T, &S1);
 	unsigned int post_w = tl_scount(&S1, &w);
 
@@ -160,6 +165,8 @@ void harness_src_remove(void)
 	VASSERT(rc == PFX_SUCCESS || rc == PFX_ERROR, "src_remove: return code");
 	if (rc == PFX_SUCCESS)
 		VASSERT(post_w == (w.socket == s ? 0 : pre_w), "C18 src_remove: set semantics when no error is reported");
+	else
+		VASSERT(post_w == pre_w, "C18 src_remove: a failed removal-by-source has no partial effect");
 	VASSERT(w.socket == s || post_w == pre_w, "C18 src_remove: other sources untouched even on failure");
 	VASSERT(cb_w_removed == pre_w - post_w, "C18 src_remove: callbacks match what was removed");
 	VASSERT(tl_sinv(&S1, TE), "C18 src_remove: Inv preserved under allocation failure");
@@ -203,6 +210,11 @@ void harness_for_each(void)
 	VASSERT(fe_total == tot6, "for_each_ipv6: yields as many records as stored");
 	VASSERT(fe_w_seen == (fe_w.prefix.ver == LRTR_IPV6 ? pre_w : 0), "for_each_ipv6: every stored record exactly once, fields intact");
 	VASSERT(!fe_bad_family, "for_each_ipv6: only IPv6 records");
+#ifdef VL_HAVOC
+	VASSERT(vl_rd_sections[vl_slot(&T.lock)] <= 2 && vl_wr_sections[vl_slot(&T.lock)] == 0 && hv_unlocked_root_changes == 0,
+		"C16 for_each: each enumeration is one read section and does not modify the table");
+#endif
+	hv_restore();
 	tl_snapshot(&T, &S1);
 	VASSERT(tl_scount(&S1, &fe_w) == pre_w && tl_stotal(&S1) == tot4 + tot6, "for_each: table unchanged");
 	VWITNESS("for_each end");
